@@ -565,15 +565,19 @@ class AsyncServer(base_server.BaseServer):
             success = False
 
         if success is False:
-            if self.always_connect:
-                self.manager.pre_disconnect(sid, namespace)
-                await self._send_packet(eio_sid, self.packet_class(
-                    packet.DISCONNECT, data=fail_reason, namespace=namespace))
-            else:
-                await self._send_packet(eio_sid, self.packet_class(
-                    packet.CONNECT_ERROR, data=fail_reason,
-                    namespace=namespace))
-            await self.manager.disconnect(sid, namespace, ignore_queue=True)
+            try:
+                if self.always_connect:
+                    self.manager.pre_disconnect(sid, namespace)
+                    await self._send_packet(eio_sid, self.packet_class(
+                        packet.DISCONNECT, data=fail_reason,
+                        namespace=namespace))
+                else:
+                    await self._send_packet(eio_sid, self.packet_class(
+                        packet.CONNECT_ERROR, data=fail_reason,
+                        namespace=namespace))
+            finally:
+                await self.manager.disconnect(sid, namespace,
+                                              ignore_queue=True)
         elif not self.always_connect:
             await self._send_packet(eio_sid, self.packet_class(
                 packet.CONNECT, {'sid': sid}, namespace=namespace))
